@@ -9,39 +9,70 @@ from ..poly import Poly, same, known_le
 
 
 def _core_sections(fn):
-    """Group the slot stores  core[a, :, b] = value  by the preceding
-    ``core = ...`` assignment (first core, loop body, last core)."""
+    """Group the slot stores  X[a, :, b] = value  (also the paired fancy form
+    X[[a1, a2], :, [b1, b2]] = value) by the array they fill: one section per
+    ``X = ...`` binding, in program order (first core, loop body, last core).
+    The variable names are free; loops may be ``for`` or ``while``."""
     sections = []
-    # the core variable = the array that receives slot stores  X[c, :, c]
-    bases = [n.targets[0].value.id for n in ast.walk(fn.node)
-             if isinstance(n, ast.Assign) and
-             isinstance(n.targets[0], ast.Subscript) and
-             isinstance(n.targets[0].value, ast.Name) and
-             isinstance(n.targets[0].slice, ast.Tuple) and
-             len(n.targets[0].slice.elts) == 3 and
-             isinstance(n.targets[0].slice.elts[1], ast.Slice)]
-    core = max(set(bases), key=bases.count) if bases else None
+    current = {}            # array name -> open section
 
-    def walk(stmts):
+    def consts(e):
+        if isinstance(e, ast.Constant) and isinstance(e.value, int):
+            return [e.value]
+        if isinstance(e, (ast.List, ast.Tuple)) and e.elts and all(
+                isinstance(x, ast.Constant) and isinstance(x.value, int)
+                for x in e.elts):
+            return [x.value for x in e.elts]
+        return None
+
+    def slot(t):
+        if not (isinstance(t, ast.Subscript) and
+                isinstance(t.value, ast.Name) and
+                isinstance(t.slice, ast.Tuple) and len(t.slice.elts) == 3
+                and isinstance(t.slice.elts[1], ast.Slice)):
+            return None
+        a_, b_ = consts(t.slice.elts[0]), consts(t.slice.elts[2])
+        if a_ is None or b_ is None:
+            return None
+        if len(a_) == len(b_):
+            return list(zip(a_, b_))
+        if len(a_) == 1 or len(b_) == 1:
+            return [(x, y) for x in a_ for y in b_]
+        return None
+    slotted = {n.targets[0].value.id for n in ast.walk(fn.node)
+               if isinstance(n, ast.Assign) and len(n.targets) == 1 and
+               slot(n.targets[0]) is not None}
+
+    def walk(stmts, in_loop):
         for st in stmts:
-            if isinstance(st, ast.Assign) and \
+            if isinstance(st, ast.Assign) and len(st.targets) == 1 and \
                     isinstance(st.targets[0], ast.Name) and \
-                    st.targets[0].id == core:
-                sections.append({'init': st, 'stores': []})
-            elif isinstance(st, ast.Assign) and \
-                    isinstance(st.targets[0], ast.Subscript) and \
-                    isinstance(st.targets[0].value, ast.Name) and \
-                    st.targets[0].value.id == core and sections:
-                sl = st.targets[0].slice
-                if isinstance(sl, ast.Tuple) and len(sl.elts) == 3 and \
-                        isinstance(sl.elts[0], ast.Constant) and \
-                        isinstance(sl.elts[2], ast.Constant) and \
-                        isinstance(sl.elts[1], ast.Slice):
-                    sections[-1]['stores'].append(
-                        (sl.elts[0].value, sl.elts[2].value, st.value, st))
-            elif isinstance(st, ast.For):
-                walk(st.body)
-    walk(paths.linear(fn.node.body))
+                    st.targets[0].id in slotted:
+                sec = {'init': st, 'stores': [], 'loop': in_loop}
+                sections.append(sec)
+                current[st.targets[0].id] = sec
+            elif isinstance(st, ast.Assign) and len(st.targets) == 1 and \
+                    slot(st.targets[0]) is not None and \
+                    st.targets[0].value.id in current:
+                for a_, b_ in slot(st.targets[0]):
+                    current[st.targets[0].value.id]['stores'].append(
+                        (a_, b_, st.value, st))
+            elif isinstance(st, (ast.For, ast.While)):
+                walk(paths.linear(st.body), True)
+    walk(paths.linear(fn.node.body), False)
+    # first / middle / last by position relative to the loop section
+    loops = [s for s in sections if s['loop']]
+    if len(sections) == 3 and len(loops) == 1 and sections[1]['loop']:
+        return sections
+    if len(loops) == 1 and len(sections) == 3:
+        # the closing core may be prepared before the loop
+        rest = [s for s in sections if not s['loop']]
+        # the first core has one row (slots (0, b)), the last one column
+        wide = [s for s in rest if any(b_ != 0 for _, b_, _, _ in s['stores'])]
+        if len(wide) == 1:
+            other = [s for s in rest if s is not wide[0]][0]
+            return [wide[0], loops[0], other]
+        return [rest[0], loops[0], rest[1]]
     return sections
 
 
@@ -190,7 +221,7 @@ def check(an, rep, tier):
              'longer passes the bond index through'),
             line=f1.node.lineno, file=f1.module.path)
     # --- interpreter runs
-    ds = (2, 3) if tier == 'quick' else (2, 3, 4)
+    ds = (2, 3) if tier == 'quick' else (2, 3, 4, 5)
     wh = {'anova.ANOVA.cores_1', 'anova.ANOVA.cores_2', 'anova.ANOVA.cores',
           'anova._second_order_2_tt', 'anova._core_one',
           'anova.ANOVA.build', 'anova.ANOVA.build_1', 'anova.ANOVA.build_2',
@@ -204,9 +235,11 @@ def check(an, rep, tier):
             if st == 'ok' and r.qualname == 'anova.anova':
                 order2 = r.variant.get('order') == ('lit', 2)
                 want = Poly.sym('r') if order2 else Poly.const(2)
+                from .common import cmp3
                 for k, c in enumerate(rv.items[:-1]):
-                    if not order2 and not same(c.dims[2], want):
-                        st, detail = 'violation', 'order-1 bond %d is %r, ' \
+                    c3 = 'ok' if order2 else cmp3(c.dims[2], want)
+                    if c3 != 'ok' and st != 'violation':
+                        st, detail = c3, 'order-1 bond %d is %r, ' \
                             'requested rank %r' % (k + 1, c.dims[2], want)
             rep.add('S-ret', r.qualname, 'return path %d of %s'
                     % (j, r.tag()), st, detail)
